@@ -184,6 +184,9 @@ def main():
         m = find(H, r"kInvalidVersion\s*=\s*(0[xX][0-9a-fA-F]+|\d+)\s*;", "kInvalidVersion")
         emit("Definition kInvalidVersion : N := %d." % int(m.group(1), 0))
 
+    section('W3C traceparent sizes (C09)', ['C09'], sec_0)
+
+    def sec_0b():
         # hex table
         X = "api/include/opentelemetry/trace/propagation/detail/hex.h"
         m = find(X, r"kHexDigits\[256\]\s*=\s*\{(.*?)\}", "kHexDigits table")
@@ -192,8 +195,11 @@ def main():
             raise Missing("kHexDigits has %d entries" % len(vals))
         emit("Definition kHexDigits : list Z := [%s]%%Z." % "; ".join(str(v) for v in vals))
 
-        # TraceFlags digit table
+    section('hex digit table (C09 C16, Base)', ['C09', 'C16'], sec_0b)
+
+    def sec_0c():
         F = "api/include/opentelemetry/trace/trace_flags.h"
+        # TraceFlags digit table
         m = find(F, r"ToLowerBase16\(nostd::span<char, 2> buffer\).*?kHex\[\]\s*=\s*(\"[^;]*\")\s*;", "TraceFlags kHex")
         tbl = join_literals(m.group(1))
         emit("Definition kFlagsHexTable : list N := [%s]." % "; ".join(str(b) for b in tbl))
@@ -202,9 +208,13 @@ def main():
                                ("kSpanIdHexTable", "api/include/opentelemetry/trace/span_id.h", r"2 \* kSize")):
             m = find(rel, r"ToLowerBase16\(nostd::span<char, %s> buffer\).*?kHex\[\]\s*=\s*(\"[^;]*\")\s*;" % width, nm)
             emit("Definition %s : list N := [%s]." % (nm, "; ".join(str(b) for b in join_literals(m.group(1)))))
+    section('TraceFlags / TraceId / SpanId lower-hex tables (C09)', ['C09'], sec_0c)
+
+    def sec_0d():
+        F = "api/include/opentelemetry/trace/trace_flags.h"
         nat_const("kIsSampled", F, r"kIsSampled\s*=\s*(\d+)\s*;")
 
-    section('W3C trace context (C09)', ['C09'], sec_0)
+    section('TraceFlags::kIsSampled (C05 C09 C12 C16)', ['C05', 'C09', 'C12', 'C16'], sec_0d)
 
     def sec_1():
         # --- TraceState (C14)
@@ -233,18 +243,25 @@ def main():
         for coq, cname in (("kInstrumentNamePattern", "kInstrumentNamePattern"), ("kInstrumentUnitPattern", "kInstrumentUnitPattern")):
             m = find(V, r"%s\s*=\s*((?:\"(?:[^\"\\]|\\.)*\"\s*)+);" % cname, cname)
             emit(coq_regex(coq, parse_regex(join_literals(m.group(1)))))
+    section('instrument name/unit patterns (C19)', ['C19'], sec_3)
+
+    def sec_3b():
+        V = "sdk/src/metrics/instrument_metadata_validator.cc"
         # the limits of the hand-written (non-regex) validator variant, in source order: ValidateName, ValidateUnit (C19)
         lims = re.findall(r"const\s+size_t\s+kMaxSize\s*=\s*(\d+)\s*;", src(V))
         if len(lims) != 2:
             raise Missing("the two kMaxSize limits of the non-regex validators in " + V)
         emit("Definition kNrNameMaxSize : nat := %d.   (* %s *)" % (int(lims[0]), V))
         emit("Definition kNrUnitMaxSize : nat := %d.   (* %s *)" % (int(lims[1]), V))
+    section('limits of the non-regex instrument validators (C19)', ['C19'], sec_3b)
+
+    def sec_3c():
         # the name a disabled SDK Logger answers with (api NoopLogger::GetName), used by the LoggerProvider registry lookup (C19)
         m = find("api/include/opentelemetry/logs/noop.h",
                  r"class\s+NoopLogger\b.*?GetName\(\)\s*noexcept\s*override\s*\{\s*return\s*(\"(?:[^\"\\]|\\.)*\")\s*;", "NoopLogger::GetName literal")
         emit("Definition kNoopLoggerName : list N := [%s]." % "; ".join(str(b) for b in join_literals(m.group(1))))
 
-    section('instrument names (C19)', ['C19'], sec_3)
+    section('NoopLogger name (C13 C19)', ['C13', 'C19'], sec_3c)
 
     def sec_4():
         # --- metrics limits (C08) and default histogram boundaries (C07)
